@@ -297,10 +297,121 @@ func scenario(t *testing.T, idx int64, r *rand.Rand) {
 	}
 }
 
+// addVsUpdate: a dynamic AddPartition racing with the sample-driven update that changes the limit.  After both
+// returned, the new partition's share (like every other) must be derived from the limit now enforced.
+func addVsUpdate(idx int64, r *rand.Rand) {
+	off := r.IntN(1000)
+	rec := inject.NewScriptedLimit(5+r.IntN(20), func(n int) int { return 1 + (off+n*7)%45 })
+	kind := []string{"lookup", "predicate"}[r.IntN(2)]
+	var look *strategy.LookupPartitionStrategy
+	var pred *strategy.PredicatePartitionStrategy
+	var st core.Strategy
+	if kind == "lookup" {
+		ps := map[string]*strategy.LookupPartition{"a": strategy.NewLookupPartitionWithMetricRegistry("a", 8.0/32, 1, core.EmptyMetricRegistryInstance)}
+		look, _ = strategy.NewLookupPartitionStrategyWithMetricRegistry(ps, nil, 10, core.EmptyMetricRegistryInstance)
+		st = look
+	} else {
+		ps := []*strategy.PredicatePartition{strategy.NewPredicatePartitionWithMetricRegistry("a", 8.0/32, matchers.StringPredicateMatcher("a", false), core.EmptyMetricRegistryInstance)}
+		pred, _ = strategy.NewPredicatePartitionStrategyWithMetricRegistry(ps, 10, core.EmptyMetricRegistryInstance)
+		st = pred
+	}
+	const windowSize = 10
+	dl, err := limiter.NewDefaultLimiter(rec, 1, 1, 0, windowSize, st, limit.NoopLimitLogger{}, core.EmptyMetricRegistryInstance)
+	if err != nil {
+		panic(err)
+	}
+	for round := 0; round < 60; round++ {
+		// fill the window up to (not beyond) the readiness boundary, keep one token whose completion will close it
+		before := rec.Count()
+		var last core.Listener
+		for rec.Count() == before {
+			if last != nil {
+				last.OnSuccess()
+			}
+			l, ok := dl.Acquire(keyCtx("a"))
+			if !ok {
+				return
+			}
+			for i := 0; i < 50; i++ { // a measurable (non-zero) rtt
+				runtime.Gosched()
+			}
+			last = l
+			if rec.Count() != before {
+				break
+			}
+		}
+		// the update has just happened with `last` still held; prepare the next one: completing `last` adds one sample
+		last.OnSuccess()
+		var hold core.Listener
+		for i := 0; i < windowSize; i++ {
+			l, ok := dl.Acquire(keyCtx("a"))
+			if !ok {
+				return
+			}
+			for j := 0; j < 50; j++ {
+				runtime.Gosched()
+			}
+			if i == windowSize-1 {
+				hold = l
+			} else {
+				l.OnSuccess()
+			}
+		}
+		num := 1 + r.IntN(16)
+		c0 := rec.Count()
+		var wg sync.WaitGroup
+		wg.Add(2)
+		bar := make(chan struct{})
+		go func() { defer wg.Done(); <-bar; hold.OnSuccess() }()
+		if kind == "lookup" {
+			np := strategy.NewLookupPartitionWithMetricRegistry("dyn", float64(num)/32, 1, core.EmptyMetricRegistryInstance)
+			go func() { defer wg.Done(); <-bar; look.AddPartition("dyn", np) }()
+		} else {
+			np := strategy.NewPredicatePartitionWithMetricRegistry("dyn", float64(num)/32, matchers.StringPredicateMatcher("dyn", false), core.EmptyMetricRegistryInstance)
+			go func() { defer wg.Done(); <-bar; pred.AddPartition(np) }()
+		}
+		close(bar)
+		wg.Wait()
+		rt.Count("add_vs_update_rounds", 1)
+		if rec.Count() > c0 {
+			rt.Count("add_vs_update_rounds_with_an_update", 1)
+		}
+		smp, _ := rec.Last()
+		want := max1(smp.EstAfter)
+		var gotLimit, gotShare int
+		if kind == "lookup" {
+			gotLimit = look.Limit()
+			gotShare, _ = look.BinLimit("dyn")
+		} else {
+			gotLimit = pred.Limit()
+			gotShare, _ = pred.BinLimit(1)
+		}
+		if gotLimit != want {
+			rt.Violation("C05/"+kind+"/enforced-limit-differs-from-estimate/after-update-racing-with-AddPartition", idx, rt.J{"enforced": gotLimit, "estimate": smp.EstAfter})
+			return
+		}
+		if gotShare != share(want, num) {
+			rt.Violation("C05/"+kind+"/partition-share-not-recomputed-from-estimate/partition-added-while-the-limit-changed", idx,
+				rt.J{"share": gotShare, "want": share(want, num), "fraction_of_32": num, "enforced_limit": gotLimit, "round": round})
+			return
+		}
+		if kind == "lookup" {
+			look.RemovePartition("dyn")
+		} else {
+			pred.RemovePartitionsMatching(keyCtx("dyn"))
+		}
+	}
+	rt.Distinct(fmt.Sprintf("addvsupdate|%s|%d", kind, off))
+}
+
 func TestCheck(t *testing.T) {
 	rt.Cases(2000, 400000, func(idx int64) {
 		r := rt.CaseRand(5, idx)
 		rt.Case()
+		if idx%10 == 9 {
+			addVsUpdate(idx, r)
+			return
+		}
 		scenario(t, idx, r)
 	})
 }
